@@ -115,4 +115,15 @@ PROPS = {
             "receivers are drained after every acknowledged request, so channels never fill up",
         ],
     },
+    "C14": {
+        "lean_modules": ["DocsModel.Props.C14"],
+        "trusted_base": COMMON_TRUST + [
+            "async_channel is FIFO with a single consumer, so the order in which requests enter the queue (recorded at the send site on a single-threaded runtime) is the order in which the actor handles them",
+            "hook H1 (process-global clock, held constant so that outcomes depend on queue order only)",
+        ],
+        "assumptions": [
+            "real thread scheduling is not modelled: the model is run on the recorded total order of each execution",
+            "get_many streams and the subscriber channels are drained / kept alive by the harness",
+        ],
+    },
 }
